@@ -47,6 +47,7 @@ type Params struct {
 	GraceMs      int       `json:"grace_ms"` // >0: scenario of the short-grace batch; second closer holds longer than the grace
 	HoldMs       int       `json:"hold_ms"`
 	TimeoutMs    int       `json:"timeout_ms"`
+	ReadTimeoutMs int      `json:"read_timeout_ms"` // >0: through the proxy instance configured with this ReadTimeout
 }
 
 // timedOut counts scenarios that hit their deadline in this run.
